@@ -708,7 +708,10 @@ package engine
 
 // (model clause) the connection wrappers of a request context are attached by the upgrade handlers only: a handshake
 // neither replaces nor dismantles them
+// (assumed, not proved for *baseServer: the handshake builds the transport and the session through code whose frame is "anything";
+// that it leaves the request's upgraded connection alone is an assumption of the upgrade handlers)
 //@ func BaseServer.Handshake(transportName, ctx)
+//@   opt norefine
 //@   modifies *
 //@   ensures result1 == nil ==> result0 != nil
 //@   ensures ctx.Websocket == old(ctx.Websocket) && ctx.WebTransport == old(ctx.WebTransport)
@@ -721,6 +724,7 @@ package engine
 //@ func BaseServer.Verify(ctx, upgrade)
 //@   modifies *
 //@   ensures registryOK(this.Clients())   // admission only reads the registry
+//@   ensures maphas(result1, "message") ==> typeis(mapval(result1, "message"), string)   // the only message an error context carries is the hook's error text
 
 // the handler returns only after the response has been written: whatever the middleware chain does with the request, the
 // handler then waits for the request context's done channel (closed by the first write of a response)
@@ -730,6 +734,22 @@ package engine
 //@   modifies *
 //@   ensures [C11.handlerwaits] calls(chan.recv) == 1 && arg(chan.recv, 1, ch) == old(ctx.done) && calls(BaseServer.ApplyMiddlewares) == 1 && before(BaseServer.ApplyMiddlewares, 1, chan.recv, 1)
 
+// what the middleware chain hands on: a middleware failure is a BAD_REQUEST rejection, otherwise the verdict of Verify (for a
+// plain request with upgrade == false, for a WebSocket upgrade with upgrade == true) decides - nothing is admitted unverified
+//@ func (*server).HandleRequest$2(err)
+//@   props C05
+//@   requires s != nil && s.BaseServer != nil && ctxOK(ctx) && callback != nil
+//@   dyncall callback noeffect
+//@   modifies *
+//@   ensures [C05.req.mwfail]   err != nil ==> calls(BaseServer.Verify) == 0 && calls(callback) == 1 && arg(callback, 1, 0) == BAD_REQUEST
+//@   ensures [C05.req.verified] err == nil ==> calls(BaseServer.Verify) == 1 && !arg(BaseServer.Verify, 1, upgrade) && arg(BaseServer.Verify, 1, ctx) == ctx && calls(callback) == 1 && arg(callback, 1, 0) == ret(BaseServer.Verify, 1, 0) && before(BaseServer.Verify, 1, callback, 1)
+//@ func (*server).HandleUpgrade$2(err)
+//@   props C05, C08
+//@   requires s != nil && s.BaseServer != nil && ctxOK(ctx) && callback != nil
+//@   dyncall callback noeffect
+//@   modifies *
+//@   ensures [C05.up.mwfail]   err != nil ==> calls(BaseServer.Verify) == 0 && calls(callback) == 1 && arg(callback, 1, 0) == BAD_REQUEST
+//@   ensures [C05.up.verified] err == nil ==> calls(BaseServer.Verify) == 1 && arg(BaseServer.Verify, 1, upgrade) && arg(BaseServer.Verify, 1, ctx) == ctx && calls(callback) == 1 && arg(callback, 1, 0) == ret(BaseServer.Verify, 1, 0) && before(BaseServer.Verify, 1, callback, 1)
 // the continuation of HandleRequest after the middlewares and Verify: rejected requests create no session and
 // disturb none; a request naming a session goes to that session's transport; others handshake
 //@ func (*server).HandleRequest$1(codeMessage, errorContext)
@@ -747,6 +767,9 @@ package engine
 //@   ensures [C05.req.hsaccept]  codeMessage == nil && sid == "" && ret(BaseServer.Handshake, 1, 1) != nil ==> calls(abortRequest) == 0
 
 // ---- refinement: the Socket model fields are the session's own state; the getters are proved against the model contracts
+// the server interface is implemented by *baseServer (the embedded value of *server): its model contracts are proved for it
+//@ ghost field BaseServer.$registry ref
+//@ represents (*baseServer) BaseServer.$registry = this.clients
 //@ represents (*socket) Socket.$transport = this.Transport()
 //@ represents (*socket) Socket.$rstate = this.ReadyState()
 //@ represents (*socket) Socket.$upgrading = this.upgrading.v != 0
